@@ -21,7 +21,8 @@ PARTIAL = ["'same results and output for arbitrary programs' is a statement abou
            "not proved; the theorems cover the regenerated primitive lists, the callback's try/except and the exit block",
            "hook-freedom of the primitives is an assumption about CPython"]
 
-FAULTS = ["none", "log", "flush", "log+flush", "body_raises", "body_raises+flush", "body_raises+log"]
+FAULTS = ["none", "log", "flush", "log+flush", "body_raises", "body_raises+flush", "body_raises+log", "hot_section",
+          "hot_section+body_raises+flush"]
 WHAT = {5: ("kf_lookup_getattr", "function lookup reads __code__/__wrapped__ (getattr in _has_code) of a module global named like "
                                   "the traced function and of callable locals of outer frames: user attribute hooks run"),
         6: ("kf_metaclass_hash_eq", "the class of a traced value is hashed / compared when types are merged (typing.Union, dict "
@@ -94,8 +95,9 @@ def run(ctx):
                 "properties, list/dict/set/tuple subclasses overriding the container protocol, journaling "
                 "__hash__/__eq__/__bool__/__repr__, metaclasses with __instancecheck__/__hash__, an object whose every "
                 "attribute read raises; passed as arguments, returns, yields, nested in containers; a hooked global named like "
-                "a traced method, a hooked callable local of an outer frame) run untraced and under the real trace_calls in "
-                "fresh interpreters, x faults {log, flush, both, body exception, ...} x pre-installed profiler or none; every "
+                "a traced method, hooked non-class globals before and after the classes, a hooked callable local of an outer frame; "
+                "the logging module configured with a handler that formats every record) run untraced and under the real trace_calls in "
+                "fresh interpreters, x faults {log, flush, both, body exception, block switching the profiler off or replacing it, ...} x pre-installed profiler or none; every "
                 "pair is non-trivial; distinct by hash of the reified comparison",
         "samples": [{k: c[k] for k in ("seed", "fault", "extra", "missing", "traced")} for c in cases[:3]],
         "distribution": dict(dist), "failures": failures, "mismatches": mismatches,
